@@ -86,6 +86,19 @@ CLAIMED['C15'] = dict(
     note='Trusts astor.op_util precedences and CPython\'s ast.parse as the oracle for operator symbols.',
     ref='DESIGN.md section 3, C15')
 
+CLAIMED['C10'] = dict(
+    technique='who-may-call sink census + value-provenance classification + must-pass-through + template XML/renderer census',
+    text='Static: strings are parsed as markup only in html2stan and template loading, html2stan has exactly two callers, tag and '
+         'attribute names are constants (R10.1); every value appended to HTMLTranslator.body is a literal or comes from '
+         'flatten/starttag/encode/attval (R10.2); every default/annotation handed to inspect.Signature is Parameter.empty or an escaping '
+         'formatter whose __repr__ only returns translator output, and str(signature) is re-parsed only inside the catch-all (R10.3); '
+         'control characters are filtered on every path before the XML parser (R10.4); every field interpolated into the reST deprecation '
+         'templates is validated or neutralised (R10.5); all theme templates parse as XML and their t:render/t:slot names exist (R10.6). '
+         'Decides where pydoctor itself turns strings into markup; well-formedness of what docutils/twisted emit is trusted.',
+    note='Trusted base: twisted.web.template escapes text and attribute values; docutils encode/attval/starttag escape; AST identifiers '
+         'contain no markup characters.',
+    ref='DESIGN.md section 3, C10')
+
 NOT_APPLICABLE = {
     'C04': 'relation between expandName results and the interpreter import system over all projects: value computations, no clause visible in the shape of the code (DESIGN.md section 5)',
     'C06': 'quantifies over processing schedules; name resolution during the AST walk is order sensitive by design, no structural bound (DESIGN.md section 5); the one structural fact (post-processing after the drain loop) is checked under C05',
